@@ -759,6 +759,73 @@ def substitute_locals(fn, max_rounds: int = 4) -> bool:
     return changed_any
 
 
+def hoist_walrus(tree: ast.Module) -> bool:
+    """``if (x := E) <rest>:`` -> ``x = E; if x <rest>:`` and ``while (x := E) <rest>: body`` ->
+    ``while True: x = E; if not (x <rest>): break; body`` - only when the named expression is the first thing the test
+    evaluates (left-most operand), so the order of evaluation is unchanged."""
+    changed = [False]
+
+    def leftmost(e):
+        while True:
+            if isinstance(e, ast.NamedExpr):
+                return e
+            if isinstance(e, ast.Compare):
+                e = e.left
+            elif isinstance(e, ast.BoolOp):
+                e = e.values[0]
+            elif isinstance(e, ast.UnaryOp):
+                e = e.operand
+            elif isinstance(e, ast.Call) and isinstance(e.func, ast.Attribute):
+                e = e.func.value
+            else:
+                return None
+
+    def replace(test, ne):
+        class R(ast.NodeTransformer):
+            def visit_NamedExpr(self, node):
+                if node is ne:
+                    return ast.copy_location(ast.Name(id=ne.target.id, ctx=ast.Load()), node)
+                return self.generic_visit(node)
+
+        return R().visit(test)
+
+    def walk_block(stmts):
+        i = 0
+        while i < len(stmts):
+            s = stmts[i]
+            if isinstance(s, FuncNode + (ast.ClassDef,)):
+                walk_block(s.body)
+                i += 1
+                continue
+            if isinstance(s, ast.If):
+                ne = leftmost(s.test)
+                if ne is not None and isinstance(ne.target, ast.Name):
+                    asg = ast.copy_location(ast.Assign(targets=[ast.Name(id=ne.target.id, ctx=ast.Store())], value=ne.value), s)
+                    s.test = replace(s.test, ne)
+                    stmts.insert(i, asg)
+                    changed[0] = True
+                    continue  # re-examine (nested walrus in the same test)
+            if isinstance(s, ast.While) and not s.orelse:
+                ne = leftmost(s.test)
+                if ne is not None and isinstance(ne.target, ast.Name):
+                    asg = ast.copy_location(ast.Assign(targets=[ast.Name(id=ne.target.id, ctx=ast.Store())], value=ne.value), s)
+                    cond = replace(s.test, ne)
+                    brk = ast.copy_location(ast.If(test=ast.UnaryOp(op=ast.Not(), operand=cond), body=[ast.Break()], orelse=[]), s)
+                    s.test = ast.copy_location(ast.Constant(value=True), s)
+                    s.body = [asg, brk] + s.body
+                    changed[0] = True
+            for fld in ("body", "orelse", "finalbody"):
+                sub = getattr(s, fld, None)
+                if isinstance(sub, list) and sub and isinstance(sub[0], ast.stmt):
+                    walk_block(sub)
+            for hd in getattr(s, "handlers", []) or []:
+                walk_block(hd.body)
+            i += 1
+
+    walk_block(tree.body)
+    return changed[0]
+
+
 def fold_explaining_returns(fn) -> bool:
     """``x = E`` immediately followed by ``return x`` (x bound once, used once) -> ``return E``."""
     changed = False
@@ -804,6 +871,7 @@ def _remove_stmt(root, target) -> bool:
 
 def normalize_tree(tree: ast.Module, keep: Iterable[str] = (), substitute_rounds: int = 12) -> ast.Module:
     tree = copy.deepcopy(tree)
+    hoist_walrus(tree)
     inline_module_constants(tree)
     nested_defs_to_lambdas(tree)
     keywords_to_positional(tree)
